@@ -26,7 +26,7 @@ EXPLANATION = (
     'get_shifted_root_seq asserts |n_cs| < denominator and uses phase 2 pi n_cs/denominator; ROOT_TABLE1/2 have 30 '
     'rows of 12/24 entries from {+-1,+-3}; sizes 12/24 are looked up in those tables, larger ones use Zadoff-Chu. '
     'Not decided: CAZAC identities, estimator exactness, LS normal equations (numeric).'
-    ' General rules also applied here (see DESIGN 10.5): input immutability (no in-place modification of an array argument, alias- and view-aware).')
+    ' General rules also applied here (see DESIGN 10.5): input immutability (no in-place modification of an array argument, alias- and view-aware). C18.g: all tests of the `normalize` flag (parameter, attribute, property, the estimator\'s copy) have the same form.')
 
 
 def _literal_ints(e: ast.AST) -> Optional[List[int]]:
@@ -266,6 +266,8 @@ class _TableMutant(Mutant):
 
 
 MUTANTS = [
+    Mutant('normalize-flag-tested-by-truthiness-in-the-sequence', SRS, 'UeSequence.__init__',
+           [('replace', 'if normalize is True:', 'if normalize:')], r'C18\.g:UeSequence\.__init__:flag:'),
     _TableMutant('revert-fix-table-stops-at-1009', RS, '_SMALL_PRIME_LIST', [('table', r'1009,\s*1013,[\s\d,]*?1201\n', '1009\n')],
                  r'C18\.a:_SMALL_PRIME_LIST:reach'),
     _TableMutant('drop-997', RS, '_SMALL_PRIME_LIST', [('table', r' 997,', '')], r'C18\.a:_SMALL_PRIME_LIST:exact'),
